@@ -78,9 +78,9 @@ def iterunpack(source, field, newfields, include_original, missing):
         raise ArgumentError('field invalid: must be either field name or index')
 
     # determine output fields
-    outhdr = list(flds)
+    outhdr = list(hdr)
     if not include_original:
-        outhdr.remove(field)
+        del outhdr[field_index]
     if isinstance(newfields, (list, tuple)):
         outhdr.extend(newfields)
         nunpack = len(newfields)
@@ -173,7 +173,7 @@ def iterunpackdict(table, field, keys, includeoriginal, samplesize, missing):
         hdr = []
     flds = list(map(text_type, hdr))
     fidx = flds.index(field)
-    outhdr = list(flds)
+    outhdr = list(hdr)
     if not includeoriginal:
         del outhdr[fidx]
 
